@@ -605,7 +605,8 @@ func (eng *Engine) verifyFunction(fn *ssa.Function, con *Contract, bounded int) 
 		// every assert_at / check_at / mark must have found its source line
 		for _, a := range con.Asserts {
 			if !c.matched[a] {
-				bail("contract of %s names a source line that does not exist (or is unreachable): %q", shortFunc(fn.String()), a.Name)
+				// the other clauses of the contract are still checked; this one is reported as not bound
+				c.unbound = append(c.unbound, fmt.Sprintf("contract of %s names a source line that does not exist (or is unreachable): %q", shortFunc(fn.String()), a.Name))
 			}
 		}
 	}
